@@ -556,10 +556,33 @@ Proof.
   simpl. rewrite (H a (or_introl eq_refl)). f_equal. apply IH. intros i I. apply H. right. exact I.
 Qed.
 
-Lemma path_eqb_spec p q : path_eqb p q = true <-> p = q.
+Lemma group_eqb_spec p q : group_eqb p q = true <-> p = q.
 Proof.
-  apply pair_eqb_spec; [|apply Nat.eqb_eq]. apply list_eqb_spec. apply Nat.eqb_eq.
+  apply pair_eqb_spec; [|apply Nat.eqb_eq]. apply list_eqb_spec. apply list_eqb_spec. apply Nat.eqb_eq.
 Qed.
+
+(* the suites enclosing the leaf at path p are exactly the nodes at the proper prefixes of p *)
+Theorem enclosing_iff p q : In q (enclosing p) <-> exists r, r <> [] /\ p = q ++ r.
+Proof.
+  unfold enclosing. rewrite in_map_iff. split.
+  - intros (k & <- & I). apply in_seq in I. exists (skipn k p). split.
+    + intro E. pose proof (skipn_length k p) as L. rewrite E in L. simpl in L. lia.
+    + symmetry. apply firstn_skipn.
+  - intros (r & N & ->). exists (length q). split.
+    + rewrite <- (Nat.add_0_r (length q)). rewrite firstn_app_2. simpl. apply app_nil_r.
+    + apply in_seq. rewrite app_length. destruct r; [congruence|]. simpl. lia.
+Qed.
+
+Lemma enclosing_sorted p : map (@length nat) (enclosing p) = seq 0 (length p).
+Proof.
+  unfold enclosing. rewrite map_map. rewrite <- (map_id (seq 0 (length p))) at 2.
+  apply map_ext_in. intros k I. apply in_seq in I. apply firstn_length_le. lia.
+Qed.
+
+(* filtering keeps order and grouping (and, in this model, even the slots) *)
+Theorem filter_grouping keep n :
+  map grouped (paths (filter_ids keep n)) = map grouped (filter (fun p => keep (snd p)) (paths n)).
+Proof. rewrite filter_paths. reflexivity. Qed.
 
 Theorem model_meets_spec i : wf i -> spec_okb i (model i) = true.
 Proof.
@@ -567,7 +590,7 @@ Proof.
   destruct (cli_load_runs (names i) (file i) (tree i) W) as (-> & -> & _).
   unfold cli_list, list_test.
   rewrite filter_paths, iterate_leaves, !nat_list_eqb_refl. simpl. rewrite !andb_true_r.
-  apply list_eqb_spec; [apply path_eqb_spec | reflexivity].
+  apply list_eqb_spec; [apply group_eqb_spec | reflexivity].
 Qed.
 
 (* ---------- the executable statement means what the readable one says ---------- *)
@@ -592,7 +615,7 @@ Proof.
   apply andb_true_iff in H as [H H4]. apply andb_true_iff in H as [H H3]. apply andb_true_iff in H as [H1 H2].
   repeat split.
   - apply list_eqb_spec in H1; [exact H1 | apply Nat.eqb_eq].
-  - apply list_eqb_spec in H2; [exact H2 | apply path_eqb_spec].
+  - apply list_eqb_spec in H2; [exact H2 | apply group_eqb_spec].
   - apply sorted_okb_sound; exact H3.
   - apply list_eqb_spec in H4; [exact H4 | apply Nat.eqb_eq].
   - apply list_eqb_spec in H5; [exact H5 | apply Nat.eqb_eq].
@@ -613,7 +636,7 @@ Theorem obs_eqb_spec a b : obs_eqb a b = true <-> a = b.
 Proof.
   destruct a as [a1 a2 a3 a4 a5 a6 a7], b as [b1 b2 b3 b4 b5 b6 b7]. unfold obs_eqb; simpl.
   rewrite !andb_true_iff.
-  rewrite (list_eqb_spec Nat.eqb Nat.eqb_eq a1 b1), (list_eqb_spec path_eqb path_eqb_spec a2 b2),
+  rewrite (list_eqb_spec Nat.eqb Nat.eqb_eq a1 b1), (list_eqb_spec group_eqb group_eqb_spec a2 b2),
     (list_eqb_spec Nat.eqb Nat.eqb_eq a4 b4), (list_eqb_spec Nat.eqb Nat.eqb_eq a5 b5),
     (list_eqb_spec Nat.eqb Nat.eqb_eq a6 b6), (list_eqb_spec Nat.eqb Nat.eqb_eq a7 b7),
     (res_eqb_spec (list_eqb member_eqb) exn_eqb (list_eqb_spec member_eqb member_eqb_spec) exn_eqb_spec a3 b3).
